@@ -4,6 +4,7 @@
      [ev |-> "codec", cfg, what, ok]          builds / encodes / decodes / facade over a duck-typed device
      [ev |-> "init", via, cfg, dev, rw, ini, class, exc, opens, connects, url, ctx, touched]
        via = "init_device" | "SCSIDevice" | "ISCSIDevice" (the class constructed directly);
+       reopens = what open() was given when the caller closed the device and opened it again;
        touched = number of file-system accesses (open, stat, ...) made during the call            *)
 EXTENDS BindingsRules, Json, IOUtils
 Trace == JsonDeserialize(IOEnv.TRACE_FILE)
@@ -19,6 +20,8 @@ Judge(e) ==
            \cup (IF x.exc = "" /\ e.exc = "" /\ (e.opens # x.opens \/ e.connects # x.connects \/ e.url # x.url
                                      \/ (x.class = "ISCSIDevice" /\ e.ctx # x.ctx))
                  THEN {<<"OpenedExactlyRequested", ToJson([opens |-> x.opens, connects |-> x.connects, url |-> x.url, ctx |-> x.ctx])>>} ELSE {})
+           \cup (IF x.class = "SCSIDevice" /\ e.class = "SCSIDevice" /\ e.reopens # x.opens
+                 THEN {<<"OpenedExactlyRequested", ToJson([reopened |-> e.reopens, requested |-> x.opens])>>} ELSE {})
       [] OTHER -> {<<"UnknownEvent", "">>}
 TInit == l = 1
 Step == /\ l <= Len(Trace)
